@@ -11,6 +11,7 @@ LinguaMakoExtractor.
 """
 import io
 import os
+import sys
 import shutil
 import tempfile
 
@@ -25,7 +26,7 @@ RULE = (
     "detached at distance >= 2. distinct = by template text; non-trivial = at least 3 planted calls of which one "
     "sits in a multi-line construct or beyond line 5."
 )
-RULE += ' added since: blank lines after an opener, multi-line expressions / filter arguments / signatures (def, block, page, call - including an expression starting on the next line), untagged comments before control lines, magic-comment-only encodings, namespace definitions with attributes on later lines. messages on the continuation lines of backslash-continued control lines.'
+RULE += ' added since: blank lines after an opener, multi-line expressions / filter arguments / signatures (def, block, page, call - including an expression starting on the next line), untagged comments before control lines, magic-comment-only encodings, namespace definitions with attributes on later lines. messages on the continuation lines of backslash-continued control lines. many-attribute <%ns:def> templates extracted in child processes under eight PYTHONHASHSEED values.'
 ASSUMPTIONS = [
     "not asserted: calls inside <%include file=> / filter= attributes of defs, and a gettext call used as the "
     "exception class of a `% except` line (the Lingua plugin blanks try/except/else lines)",
@@ -33,6 +34,7 @@ ASSUMPTIONS = [
 ]
 MIN_NONTRIVIAL = 200
 REQUIRED_COUNTERS = ["babel_templates", "lingua_templates", "messages_planted", "decoys_planted", "translator_comments_attached", "translator_comments_detached"]
+REQUIRED_COUNTERS += ["hash_seed_children"]
 
 _st = {}
 
@@ -370,7 +372,50 @@ class _Opts:
         return None
 
 
+HASHSEED_TEXTS = [
+    "<%self:wrap title=\"${_('t1')}\"\n    body=\"${fn(1,\n        2)}\"\n    footer=\"${_('f1')}\"\n    css=\"${gettext('c1')}\"\n    alt=\"x\">\nin ${_('inner')}\n</%self:wrap>\n",
+    "<%self:wrap zeta=\"${_('z')}\" alpha=\"${_('a')}\"\n   mid=\"${(1,\n 2)}\" omega=\"${_('o')}\" beta=\"${ngettext('b1', 'b2', 2)}\"/>\n${_('after')}\n",
+    "<%def name=\"d(a=_('da'), b=_('db'))\">\n<%self:w k1=\"${_('k1')}\" k2=\"${_('k2')}\" k3=\"${_('k3')}\" k4=\"${_('k4')}\" k5=\"${_('k5')}\" k6=\"${_('k6')}\"/>\n</%def>\n",
+]
+
+
+def run_hash_seeds(res):
+    """what the extractors report does not depend on PYTHONHASHSEED (a tag's attributes are read in the order they are
+    written): the same templates in fresh processes under several seeds give identical lists"""
+    import json as _json
+    import subprocess
+    import tempfile as _tf
+
+    child = os.path.join(os.path.dirname(os.path.dirname(os.path.abspath(__file__))), "mk", "c20_child.py")
+    fd, spec = _tf.mkstemp(prefix="c20spec-", suffix=".json")
+    with os.fdopen(fd, "w") as f:
+        _json.dump({"repo": common.REPO, "texts": HASHSEED_TEXTS}, f)
+    results = {}
+    try:
+        for seed in ("0", "1", "2", "3", "5", "7", "11", "42"):
+            p = subprocess.run([sys.executable, child, spec], stdout=subprocess.PIPE, stderr=subprocess.PIPE, text=True, timeout=300,
+                               env=dict(os.environ, PYTHONHASHSEED=seed, PYTHONDONTWRITEBYTECODE="1"))
+            res.evaluations += 1
+            res.count("hash_seed_children")
+            try:
+                results[seed] = _json.loads(p.stdout.strip().splitlines()[-1])
+            except Exception:
+                res.violate("child-failed", "PYTHONHASHSEED=%s child failed: rc=%s %s" % (seed, p.returncode, p.stderr[-400:]))
+    finally:
+        os.remove(spec)
+    if results:
+        ref_seed = sorted(results)[0]
+        for seed, r_ in results.items():
+            for i, (a, b) in enumerate(zip(results[ref_seed], r_)):
+                for which in ("babel", "lingua"):
+                    if a[which] != b[which]:
+                        res.violate("extraction-depends-on-hash-seed", "%s extractor, template %r: PYTHONHASHSEED=%s reports %r, PYTHONHASHSEED=%s reports %r"
+                                    % (which, HASHSEED_TEXTS[i], ref_seed, a[which], seed, b[which]))
+        res.nontrivial("hash-seeds", len(results))
+
+
 def gen_cases(tier, seed):
+    yield {"kind": "hash-seeds"}
     n = 8000 if tier == "quick" else 60000
     per = 25
     for i in range(n // per):
@@ -379,7 +424,9 @@ def gen_cases(tier, seed):
 
 def run_case(case):
     res = common.CaseResult()
-    if case["kind"] == "batch":
+    if case["kind"] == "hash-seeds":
+        run_hash_seeds(res)
+    elif case["kind"] == "batch":
         r = common.rng_for(case["seed"], "c20", case["index"])
         for _ in range(case["n"]):
             run_template(r, r.choice(["\n", "\n", "\r\n"]), r.choice(["ascii", "utf-8", "latin-1", "cp1251"]), res)
